@@ -237,7 +237,25 @@ func c16Gate(c *Ctx) {
 			c.Missing(rule, "gmtls."+name, "method", "not found")
 			continue
 		}
-		ci := newCondIndex(f, allParamNames(f))
+		names := allParamNames(f)
+		// a value that is stored into hs.sessionState (exactly once) IS the session state: name it so, whether the
+		// code goes on to use the field or a local copy of the pointer
+		{
+			var stored []ssa.Value
+			instrsOf(f, func(_ *ssa.BasicBlock, in ssa.Instruction) {
+				if st, ok := in.(*ssa.Store); ok {
+					if fa, ok := st.Addr.(*ssa.FieldAddr); ok && fieldName(fa.X.Type(), fa.Field) == "sessionState" && fa.X == ssa.Value(f.Params[0]) {
+						stored = append(stored, st.Val)
+					}
+				}
+			})
+			if len(stored) == 1 {
+				if _, isConst := stored[0].(*ssa.Const); !isConst {
+					names[stored[0]] = "hs.sessionState"
+				}
+			}
+		}
+		ci := newCondIndex(f, names)
 		for k, v := range ci.conds {
 			ci.conds[k] = fieldForm(v)
 		}
@@ -261,26 +279,58 @@ func c16Gate(c *Ctx) {
 		}
 		g := evalGuardCut(c.P, f, flagAtoms, spec, nil, deadEdges(f))
 		c.Check(offered && g.OK, rule, fname(f), "no resumption unless the client still offers the session's suite", g.Why, "the session's suite must be among the suites of this ClientHello: "+g.Why, f.Pos())
-		// client certificate policy
-		pol := map[string]bool{}
-		for ifi, s := range ci.conds {
-			if s == "eq(hs.c.config.ClientAuth,0x0)" || strings.HasPrefix(s, "ne(len(hs.sessionState.certificates),0x0)") {
-				_ = ifi
-				pol[s] = true
+		// client certificate policy, decided semantically: ASSUME a policy value and whether the session carries client
+		// certificates, and ask whether a true result is reachable (shape of the tests irrelevant: if/switch, named
+		// booleans, `return hasCerts`)
+		policy := func(polName string, sessionHasCerts bool) (reachable bool, found bool) {
+			k, okc := pkgConst(c, "gmtls", polName)
+			if !okc {
+				return false, false
 			}
-		}
-		c.Check(pol["eq(hs.c.config.ClientAuth,0x0)"] && pol["ne(len(hs.sessionState.certificates),0x0)"], rule, fname(f), "the client-certificate policy is compared with the session", "", "the tests on ClientAuth and on the session's certificates were not found", f.Pos())
-		// a session with client certificates is refused under NoClientCert: the true edge of ClientAuth == NoClientCert (in the branch where the session has certificates) rejects
-		okNo := false
-		for ifi, s := range ci.conds {
-			if s == "eq(hs.c.config.ClientAuth,0x0)" {
-				e := edge{ifi.Block(), ifi.Block().Succs[0]}
-				if r, _ := canReachSuccess(ifi.Block().Succs[0], &e, successExits(f, spec), nil); !r {
-					okNo = true
+			nLen := 0
+			assumeFieldValue("ClientAuth", k, func() {
+				inner := condEval
+				condEval = func(v ssa.Value) (bool, bool) {
+					if bo, ok := v.(*ssa.BinOp); ok {
+						isCertsLen := func(x ssa.Value) bool {
+							return isLenOf(x, func(y ssa.Value) bool {
+								ld, ok := y.(*ssa.UnOp)
+								if !ok {
+									return false
+								}
+								fa, ok := ld.X.(*ssa.FieldAddr)
+								return ok && fieldName(fa.X.Type(), fa.Field) == "certificates"
+							})
+						}
+						if kk, isK := constInt(bo.Y); isK && kk == 0 && isCertsLen(bo.X) {
+							nLen++
+							switch bo.Op {
+							case token.NEQ, token.GTR:
+								return sessionHasCerts, true
+							case token.EQL, token.LEQ:
+								return !sessionHasCerts, true
+							}
+						}
+					}
+					return inner(v)
 				}
-			}
+				reachable, _ = canReachSuccess(f.Blocks[0], nil, successExits(f, spec), fieldValueCut(f, "ClientAuth", k))
+			})
+			return reachable, nLen > 0
 		}
-		c.Check(okNo, rule, fname(f), "a session with client certificates is not resumed under NoClientCert", "", "ClientAuth == NoClientCert does not refuse a session that carries client certificates", f.Pos())
+		for _, cs := range []struct {
+			pol      string
+			hasCerts bool
+			what     string
+		}{
+			{"NoClientCert", true, "a session with client certificates is not resumed under NoClientCert"},
+			{"RequireAnyClientCert", false, "a session without client certificates is not resumed under RequireAnyClientCert"},
+			{"RequireAndVerifyClientCert", false, "a session without client certificates is not resumed under RequireAndVerifyClientCert"},
+		} {
+			c.Evals++
+			r, found := policy(cs.pol, cs.hasCerts)
+			c.Check(!r && found, rule, fname(f), cs.what, "", fmt.Sprintf("assuming ClientAuth == %s and a session %s client certificates, checkForResumption can still return true (test on the session's certificates found: %v)", cs.pol, map[bool]string{true: "with", false: "without"}[cs.hasCerts], found), f.Pos())
+		}
 	}
 	// resumption is entered only on the gate's true result
 	for _, name := range []string{"(*serverHandshakeStateGM).readClientHello", "(*serverHandshakeState).readClientHello"} {
